@@ -47,6 +47,9 @@ func (j job) run(st *stats) (*conn, witness) {
 	case "legal":
 		w.Seed = j.seed
 		c = runSequence(j.limit, true, j.seed, st)
+	case "queued":
+		w.Seed = j.seed
+		c = runQueued(j.limit, j.seed, st)
 	}
 	w.Steps, w.Trace = c.steps, c.trace
 	return c, w
@@ -55,6 +58,7 @@ func (j job) run(st *stats) (*conn, witness) {
 // replay re-executes the recorded steps of a witness.
 func replay(w witness, st *stats) *conn {
 	c := newConn(w.Limit, w.Kind == "legal", st)
+	c.manualZombies = w.Kind == "queued"
 	if err := c.write([]byte("PRI * HTTP/2.0\r\n\r\nSM\r\n\r\n")); err != nil {
 		c.inconclusive("rig", "preface: %v", err)
 	}
@@ -82,6 +86,7 @@ func replay(w witness, st *stats) *conn {
 }
 
 func merge(dst, src *stats) {
+	dst.zombieReturns += src.zombieReturns
 	for k, v := range src.frames {
 		dst.frames[k] += v
 	}
@@ -171,6 +176,9 @@ func main() {
 	}
 	for i, n := 0, run.Pick(1000, 30000); i < n; i++ {
 		jobs = append(jobs, job{kind: "legal", limit: limits[i%3], seed: seeds.Int63()})
+	}
+	for i, n := 0, run.Pick(60, 1500); i < n; i++ {
+		jobs = append(jobs, job{kind: "queued", limit: limits[i%3], seed: seeds.Int63()})
 	}
 
 	if sd := os.Getenv("VERIF_C13_SCRIPT"); sd != "" { // debugging aid: "<random|legal> <limit> <seed>": run one script, print its trace
@@ -302,6 +310,7 @@ func main() {
 	run.Add("held_constructions_where_writer_was_not_blocked", total.holdLeaks)
 	run.Add("error_goaway_last_id_reaches_a_request_sent_behind_the_error", total.lastCoversBehind)
 	run.Add("handler_starts_queued_behind_zombies", total.queuedStart)
+	run.Add("zombie_handlers_returned_one_at_a_time", total.zombieReturns)
 	run.Add("rst_superseded_by_goaway", total.superseded)
 	run.Add("serveconn_returned_after_close", total.srvReturned)
 	run.Add("serveconn_left_to_its_goaway_timer", total.srvLingering)
